@@ -54,7 +54,12 @@ where
         expected_size: Option<usize>,
         builder: &mut <A as Array>::Builder,
     ) -> usize {
-        let inner_result = self.inner_iter.next_batch_non_null(expected_size, builder);
+        // Decode into a builder of our own: `builder` may already hold the rows of a previous
+        // block of the same batch, whose validity bits must be kept.
+        let mut batch = A::Builder::new();
+        let inner_result = self
+            .inner_iter
+            .next_batch_non_null(expected_size, &mut batch);
 
         let bitmap_slice = &BitSlice::<u8, Lsb0>::from_slice(&self.bitmap_block)
             [self.cur_row..self.cur_row + inner_result];
@@ -62,7 +67,8 @@ where
         bitmap_slice
             .iter()
             .for_each(|x| bitmap_for_builder.push(*x));
-        builder.replace_bitmap(bitmap_for_builder);
+        batch.replace_bitmap(bitmap_for_builder);
+        builder.append(&batch.finish());
         self.cur_row += inner_result;
         inner_result
     }
